@@ -110,7 +110,8 @@ fn cache_at_quiescence_matches_model() {
                         for _ in 0..3 { c.wait().unwrap(); std::thread::sleep(Duration::from_millis(2)); }
                         events.lock().unwrap().clear(); lookups = 0;
                         if c.len() != 0 || (c.policy.max_cost() - c.policy.cap()) != 0 { bad!("C11:store.clear.empty", &["C11", "C06"], "Cache::clear", format!("len={} used={}", c.len(), (c.policy.max_cost() - c.policy.cap())), "0 / 0".into()); }
-                        if c.metrics.get_hits() != Some(0) || c.metrics.get_keys_added() != Some(0) { bad!("C11:store.clear.empty", &["C11", "C17"], "Cache::clear", "metrics not reset".into(), "all counters 0".into()); }
+                        if [c.metrics.get_hits(), c.metrics.get_misses(), c.metrics.get_keys_added(), c.metrics.get_keys_updated(), c.metrics.get_keys_evicted(), c.metrics.get_cost_added(), c.metrics.get_cost_evicted(),
+                            c.metrics.get_sets_dropped(), c.metrics.get_sets_rejected(), c.metrics.get_gets_dropped(), c.metrics.get_gets_kept()].iter().any(|x| *x != Some(0)) { bad!("C11:store.clear.empty", &["C11", "C17"], "Cache::clear", "metrics not reset".into(), "all counters 0".into()); }
                         continue; }
                 }
                 _ => {
@@ -501,6 +502,42 @@ fn huge_cost_update_keeps_the_worker_alive() {
         if verdict != "ok" {
             fail("huge_cost_update_keeps_the_worker_alive", "C20:pol.update.used-overflow", &["C20", "C01"], "SampledLFU::update", script, verdict,
                  "(true, true, Some(20)): the worker is alive".into());
+        }
+    });
+}
+
+/// C17/C11: the counters behind every conservation law — Metrics::add / get_* / clear against a plain ledger, for arbitrary
+/// (type, hash, delta) including the hashes that select the last stripes
+#[test]
+fn metrics_ledger_laws() {
+    if !only("metrics_ledger_laws") { return; }
+    guarded("metrics_ledger_laws", || {
+        use crate::metrics::{MetricType as MT, Metrics};
+        let mut rng = Rng::new(37);
+        let types = [MT::Hit, MT::Miss, MT::KeyAdd, MT::KeyUpdate, MT::KeyEvict, MT::CostAdd, MT::CostEvict, MT::DropSets, MT::RejectSets, MT::DropGets, MT::KeepGets];
+        for _ in 0..iters(40) {
+            let m = Metrics::new_op();
+            let mut model = [0u64; 11];
+            let mut script: Vec<String> = vec!["Metrics::new_op()".into()];
+            for step in 0..(20 + rng.below(200)) {
+                if step > 0 && rng.below(60) == 0 {
+                    m.clear(); model = [0; 11]; script.push("clear()".into());
+                } else {
+                    let ti = rng.below(11) as usize;
+                    let hash = match rng.below(4) { 0 => rng.below(64), 1 => 25 + 26 * rng.below(50), 2 => rng.next(), _ => u64::MAX - rng.below(64) };
+                    let delta = 1 + rng.below(9);
+                    m.add(types[ti], hash, delta); model[ti] += delta;
+                    script.push(format!("add({:?}, hash {}, {})", types[ti] as u16, hash, delta));
+                }
+                let got = [m.get_hits(), m.get_misses(), m.get_keys_added(), m.get_keys_updated(), m.get_keys_evicted(), m.get_cost_added(), m.get_cost_evicted(), m.get_sets_dropped(), m.get_sets_rejected(), m.get_gets_dropped(), m.get_gets_kept()];
+                let want: Vec<Option<u64>> = model.iter().map(|x| Some(*x)).collect();
+                if got.to_vec() != want {
+                    let n = script.len();
+                    fail("metrics_ledger_laws", "C17:metrics.add.counts-delta-once", &["C17", "C11", "C15"], "MetricsInner::add/get/clear", format!("{} .. {}", script[0], script[n.saturating_sub(8).max(1)..].join("; ")),
+                         format!("{:?}", got), format!("{:?}", want));
+                    return;
+                }
+            }
         }
     });
 }
